@@ -22,6 +22,7 @@ TECHNIQUE = "schematic abstract interpretation of ast_import/ast_importfrom/ast_
 REQUIRED_EXCLUDED = {"open", "compile", "input", "breakpoint", "memoryview", "print"}
 FORMS = [
     "import math", "import os", "import os.path", "import os as x", "import math, os", "import os, math", "import json, subprocess as sp",
+    "import json.decoder", "import homeassistant.const", "import homeassistant.core", "from json.decoder import JSONDecoder", "from homeassistant.const import x",
     "from os import path", "from os.path import *", "from os import path as p", "from math import floor", "from subprocess import run, PIPE",
 ]
 
@@ -33,7 +34,7 @@ def _atoms(c):
         s = repr(atom)
         if "module_import" in s:
             # one decision per imported module name
-            for nm in ("math", "os.path", "os", "json", "subprocess"):
+            for nm in ("math", "os.path", "os", "json.decoder", "json", "subprocess", "homeassistant.const", "homeassistant.core"):
                 if f"'{nm}'" in s:
                     per[nm] = val
         if "config_entry" in s and "get" in s:
